@@ -38,15 +38,17 @@ def classify(component, what, case):
     if k == "hash-collision" and case.get("features_of_later_module_only") and case.get("model_agrees"):
         return "F23"
     if k == "counter-unchanged" and case.get("pending_batch") and case.get("model_agrees"):
-        return "F53"
+        return "F133"
     if k == "yl-differs" and case.get("undated_with_other_revision") and case.get("model_agrees"):
-        return "F55"
+        return "F135"
+    if k == "yl-differs" and case.get("two_revisions_in_context") and case.get("model_agrees") and case.get("z", "").startswith("Zv1r1m1"):
+        return "F135"      # second form: implemented modules reproduced, a dateless import re-resolved to another revision
     if k == "hash-collision" and case.get("internal_only"):
-        return "F56"
+        return "F136"
     if k == "hash-differs" and case.get("model_agrees"):
         return "F23"      # which features are visited depends on their position (main module / i-th submodule), not only on their names
     if k == "yl-differs" and case.get("implemented_not_compiled") and case.get("model_agrees"):
-        return "F57"
+        return "F137"
     return None
 
 
@@ -125,6 +127,7 @@ def run_hist(cx, hs, tag, hashes):
         bits = {z[n]: z[n + 1] for n in range(1, len(z) - 1, 2)}
         cx.count(None, False, "law:yl:" + z)
         fin = next((s for s in reversed(si) if s.kind == "S"), None)
+        tworev = bool(fin) and len({m["key"].split("@")[0] for m in fin.mods}) < len(fin.mods)
         undated = False
         unc = bool(fin) and any(m["impl"] and m["fnv"] == "-" for m in fin.mods) and not pending_batch(h, len(h.calls()), si)
         if fin:
@@ -139,7 +142,7 @@ def run_hist(cx, hs, tag, hashes):
             bits["c"] = "1"          # calls not yet committed by ly_ctx_compile(): the compiled modules are not up to date, nothing to compare
         if not (bits.get("r") == "1" and bits.get("m") == "1" and bits.get("c") == "1" and bits.get("i") == "1"):
             cx.fail("ctx", "the context rebuilt from the yang-library data differs (Z: created / same implemented+features / same compiled / all listed present)",
-                    dict(case0, kind="yl-differs", z=z, undated_with_other_revision=undated, implemented_not_compiled=unc))
+                    dict(case0, kind="yl-differs", z=z, undated_with_other_revision=undated, implemented_not_compiled=unc, two_revisions_in_context=tworev))
         elif impl and "|" in impl[-1] and fin:
             # the same through ly_ctx_new_yldata (Y): implemented modules with features, as sets
             y = Snap("0" + impl[-1][1:])
@@ -225,9 +228,9 @@ def run(cx):
     hashes = {}
     ws = cc.witnesses()
     hs = []
-    for name in ("F23", "F53", "F55", "F52", "F57"):
+    for name in ("F23", "F133", "F135", "F132", "F137"):
         h = ws[name][1]
-        if name == "F57":
+        if name == "F137":
             h = h.without_call(1)       # the state right after the successful call that leaves `maa` implemented and not compiled
         h.meta = {"kinds": ["witness:" + name]}; hs.append(h)
     run_hist(cx, hs, "w", hashes)
